@@ -13,17 +13,17 @@ VERUS_UNITS = {
                  props=['C18', 'C04', 'C02', 'C03', 'C06', 'C01']),
     'U-CHK-V': dict(module='contracts.verus.yaml_chunker', min_verified=24, timeout=600,
                     native_search=dict(src='src/yaml/chunker.rs', file='chunker_search.rs'),
-                    props=['C03', 'C05', 'C04', 'C02', 'C12', 'C07', 'C10', 'C09']),
+                    props=['C03', 'C05', 'C04', 'C02', 'C12', 'C07', 'C10', 'C09', 'C01', 'C06']),
     'U-ENC-V': dict(module='contracts.verus.yaml_encoding', min_verified=15, timeout=600,
                     native_search=dict(src='src/yaml/encoding.rs', file='encoder_search.rs'),
                     props=['C07', 'C02', 'C04', 'C05', 'C12', 'C01']),
     'U-MP-X': dict(module='contracts.verus.msgpack_transcode', min_verified=27, timeout=600,
                    native_search=dict(src='src/msgpack.rs', file='msgpack_search.rs'),
-                   props=['C03', 'C18', 'C04', 'C02', 'C06']),
+                   props=['C03', 'C18', 'C04', 'C02', 'C06', 'C05', 'C01', 'C12']),
     'U-VAL-V': dict(module='contracts.verus.transcode_value', min_verified=3, timeout=600,
                     props=['C01', 'C06', 'C02']),
     'U-JSN-V': dict(module='contracts.verus.json_transcode', min_verified=3, timeout=600,
-                    props=['C03', 'C04', 'C05', 'C02', 'C12']),
+                    props=['C03', 'C04', 'C05', 'C02', 'C12', 'C01', 'C06']),
     'U-TML-V': dict(module='contracts.verus.toml_output', min_verified=10, timeout=600,
                     props=['C08', 'C12', 'C11', 'C10', 'C09', 'C02', 'C15']),
     'U-LIB-V': dict(module='contracts.verus.lib_translate', min_verified=11, timeout=600,
@@ -32,7 +32,7 @@ VERUS_UNITS = {
                      props=['C14', 'C03', 'C15', 'C13', 'C16', 'C04', 'C08']),
     'U-CAP-V': dict(module='contracts.verus.input_capture', min_verified=22, timeout=600,
                     native_search=dict(src='src/input.rs', file='capture_search.rs'),
-                    props=['C09', 'C02', 'C04', 'C05', 'C12']),
+                    props=['C09', 'C02', 'C04', 'C05', 'C12', 'C03', 'C01', 'C10']),
 }
 
 # source files under contract -> harness module file; modpath is the Rust module path of the source file
@@ -341,7 +341,7 @@ HARNESSES = [
 
 PROPERTIES = {
     'C01': dict(
-        explanation='xt owns the middle link parser -> serde events -> transcoder -> serializer calls. Contract: the serializer receives exactly the event '
+        explanation='xt owns the middle link parser -> serde events -> transcoder -> serializer calls. The text / bytes each parser is given are exactly the document\'s: the chunk handed to serde_yaml is stream[start..end] of the document, untrimmed (U-CHK-V), the MessagePack and JSON loops offer every value once (U-MP-X, U-JSN-V), and bytes captured during detection are replayed, never dropped (U-CAP-V). Contract: the serializer receives exactly the event '
                     'sequence the deserializer produced. Scalars (17 visit methods of the streaming transcoder, 21 visit forms of transcode::Value): same type, '
                     'bit-identical value, for every value (complete). Sequences/maps: serialize_seq/map(size_hint), then elements / key-value alternation in '
                     'deserializer order, then end(), compared event by event on the fly (bounded mock depth; depth induction machine-checked by tx_depth_induction_step). '
